@@ -207,6 +207,11 @@ class XArray:
             elif isinstance(k, slice):
                 axes.append(("slice", ax, list(range(*k.indices(n)))))
             elif isinstance(k, (list, tuple, range)):
+                if len(k) and all(isinstance(v, bool) for v in k):
+                    # boolean mask along this axis
+                    if len(k) != n:
+                        raise IndexError(f"boolean mask of length {len(k)} on an axis of size {n}")
+                    k = [i for i, v in enumerate(k) if v]
                 lst = []
                 for v in k:
                     if isinstance(v, Fraction) and v.denominator == 1:
